@@ -229,8 +229,9 @@ const (
 	opPut2        // put, topics {"", "t"}
 	opPutNoTopic
 	opPutWrongID
-	opPutDupID  // manual: reuse the most recent ID (first-match semantics); auto: same as wrong ID
-	opRepNewest // replay presenting the k-th most recent issued ID
+	opPutDupID   // manual: reuse the most recent ID (first-match semantics); auto: same as wrong ID
+	opPutEmptyID // an ID that is set but empty (the "id:" reset line): manual: accepted; auto: rejected like any set ID
+	opRepNewest  // replay presenting the k-th most recent issued ID
 	opRep1
 	opRep2
 	opRep3
@@ -272,6 +273,12 @@ func (g *histGen) put(kind int) (idopt val.V, tok uint64, topics []string) {
 	}
 	if kind == opPutDupID && g.auto {
 		wantID = true
+	}
+	if kind == opPutEmptyID {
+		if !g.auto {
+			g.issued = append(g.issued, "")
+		}
+		return val.L(val.S("")), tok, topics
 	}
 	if wantID {
 		id := "m" + strconv.Itoa(g.nextMan)
@@ -380,7 +387,7 @@ func enumerate(alphabet []int, length int, f func(seq []int)) {
 	rec(0)
 }
 
-var smallAlphabet = []int{opPut0, opPut2, opPutNoTopic, opPutWrongID, opRepNewest, opRep1, opRep2, opRepUnknown, opRepFail0, opRepNonCanon, opRepHuge}
+var smallAlphabet = []int{opPut0, opPut2, opPutNoTopic, opPutWrongID, opPutEmptyID, opRepNewest, opRep1, opRep2, opRepUnknown, opRepUnset, opRepFail0, opRepNonCanon, opRepHuge}
 
 func weightedOp(r *rng.R) int {
 	// mostly valid puts and replays of buffered IDs, some of everything else
@@ -388,7 +395,7 @@ func weightedOp(r *rng.R) int {
 	case x < 40:
 		return []int{opPut0, opPut1, opPut2}[r.Intn(3)]
 	case x < 46:
-		return []int{opPutNoTopic, opPutWrongID, opPutDupID}[r.Intn(3)]
+		return []int{opPutNoTopic, opPutWrongID, opPutDupID, opPutEmptyID}[r.Intn(4)]
 	default:
 		return opRepNewest + r.Intn(numAbstractOps-opRepNewest)
 	}
@@ -500,6 +507,44 @@ func genValid(c *Ctx) {
 					}
 					if k < 0 {
 						break
+					}
+				}
+			}
+		}
+	}
+	// directed: grow the ring to L slots with one put per tick, let all but r entries expire, collect explicitly (the
+	// shrink decision is taken at r around L/4), then resume from the newest / an older ID, put, collect partially, put
+	for _, auto := range []bool{false, true} {
+		for _, L := range []int{8, 16, 32} {
+			for _, r := range []int{L/4 - 1, L / 4, L/4 + 1, L / 2, 1, 0} {
+				for _, fill := range []int{L/2 + 1, L - 1, L} {
+					if r > fill {
+						continue
+					}
+					for variant := 0; variant < 3; variant++ {
+						g := &histGen{auto: auto}
+						const bigTTL = 1000
+						vops := []val.V{}
+						now := int64(0)
+						for i := 0; i < fill; i++ {
+							now++
+							vops = append(vops, validOp(g, opPut0, now, nil))
+						}
+						now = int64(fill-r) + bigTTL // the first fill-r entries are expired now, the last r are not
+						vops = append(vops, validOp(g, -1, now, nil))
+						switch variant {
+						case 0:
+							vops = append(vops, validOp(g, opRepNewest, now, nil), validOp(g, opRep1, now, nil), validOp(g, opPut0, now, nil), validOp(g, opRepNewest, now, nil))
+						case 1:
+							vops = append(vops, validOp(g, opPut2, now, nil), validOp(g, opRep2, now, nil))
+							now += 2
+							vops = append(vops, validOp(g, -1, now, nil), validOp(g, opPut0, now, nil), validOp(g, opRep1, now, nil))
+						default:
+							now++
+							vops = append(vops, validOp(g, -1, now, nil), validOp(g, opPut0, now, nil), validOp(g, opPut0, now, nil), validOp(g, opRep3, now, nil), validOp(g, opRepNewest, now, nil))
+						}
+						c.Count("directed:grow-expire-collect")
+						c.Emit(val.L(val.Z(bigTTL), val.Bool(auto), val.L(val.Z(0)), val.List(vops)))
 					}
 				}
 			}
